@@ -253,6 +253,21 @@ def inject_case(draw):
                            draw(st.booleans()), draw(key_strategy())])
         else:
             action.append(draw(mutation_op()))
+    if draw(st.integers(0, 3)) == 0 or (point == 'generation' and
+                                        draw(st.booleans())):
+        # recipe: the callback first looks the interrupted key up itself
+        # (filling the caches from the state of that moment) and then
+        # changes a registry of the chain - in a base registry, which a
+        # verifying registry only notices through the generations it
+        # reads (seed C11g: generations recorded for a cache filled
+        # before the mutation)
+        t = draw(content_op().filter(lambda o: o[0] in ('treg', 'tsub')))
+        if draw(st.integers(0, 3)):
+            t[1] = draw(st.sampled_from([1, 1, 2]))    # a base, not itself
+        action = [['nested', draw(st.sampled_from(ENTRY[:9])), True, key],
+                  t]
+        if draw(st.integers(0, 4)) == 0:
+            action.reverse()
     warm = draw(st.lists(st.tuples(st.sampled_from(ENTRY[:9]),
                                    st.booleans()).map(list), max_size=3))
     return {'kind': 'inject', 'bp': bp, 'contents': contents,
